@@ -617,10 +617,11 @@ package keeper
 // Zero-height export preparation (service.PrepForZeroHeightGenesis): request fees and earned fees are paid back out of
 // the REQUEST escrow; the bindings and the deposit escrow that backs their recorded deposits are not part of it - the
 // bindings are exported with their deposits (C07 on the restarted chain: deposit escrow == sum of recorded deposits).
+//@ define reqFeesNonneg = forall r:Bytes :: forall d:Str :: amt(get(requests, r).ServiceFee, d) >= 0
 //@ func Keeper.RefundServiceFees(ctx)
 //@   property C07
 //@   returns err
-//@   requires forall r:Bytes :: forall d:Str :: amt(get(requests, r).ServiceFee, d) >= 0
+//@   requires reqFeesNonneg
 //@   modifies bal
 //@   invariant #1 dep: forall d:Str :: bal(DEP, d) >= old(bal(DEP, d))
 //@   ensures deposit_escrow_kept: forall d:Str :: bal(DEP, d) >= old(bal(DEP, d))
